@@ -132,7 +132,7 @@ func (w *world) crash() {
 }
 
 func TestVerifC04(t *testing.T) {
-	r := eng.Start("C04", "model_checking", 100*time.Second, 15*time.Minute)
+	r := eng.Start("C04", "model_checking", 300*time.Second, 15*time.Minute)
 	r.Assume("handlers are gated, idempotent stubs scripted per (task, phase, retries used); script counters model the outside world and survive the restart",
 		"crash granularity is the checkpoint: the disk holds the payload of the latest state unlock (durability of that write is C06)",
 		"Ensure is treated as always enabled; Ensure visiting order owned through hook H2")
